@@ -325,7 +325,8 @@ def gen_lf(rng, li, max_frames=30, names_pool=None, origin=None, waves=False):
             nrows = min(nrows, 8)
         x0 = rng.pick([100.0, 2889.4, 0.0, 5000.0, 12.5])
         dx = rng.pick([0.5, 1.5, -0.25, 0.1524, 1.0, 10.0])
-        fno = rng.pick([1, 1, 1, 0, 7])
+        # frame numbers are UVARI: 1, 2 or 4 bytes, changing at 128 and 16384; logs do not all start at frame 1
+        fno = rng.wpick([(10, 1), (2, 0), (2, 7), (2, rng.randrange(120, 129)), (3, rng.randrange(16376, 16385)), (1, (1 << 30) - 200)])
         rows = []
         for r in range(nrows):
             bits = []
